@@ -154,6 +154,7 @@ def run(tier: str) -> int:
             {"Family": "tags", "MaxLen": 3, "Starts": "all", "Sample": 120, "workers": 2},
             {"Family": "stack", "MaxLen": 3, "Starts": "all", "Sample": 250, "workers": 3},
             {"Family": "optsk", "MaxLen": 3, "Starts": "all", "Sample": 120, "workers": 3, "style": "min"},
+            {"Family": "trivfx", "MaxLen": 4, "Starts": "zero", "Sample": 200, "workers": 3},
         ]
     else:
         fams = [
@@ -162,6 +163,7 @@ def run(tier: str) -> int:
             {"Family": "mods", "MaxLen": 4, "Starts": "all", "Sample": 0, "workers": 8},
             {"Family": "tags", "MaxLen": 4, "Starts": "all", "Sample": 0, "workers": 8},
             {"Family": "stack", "MaxLen": 4, "Starts": "all", "Sample": 4000, "workers": 8},
+            {"Family": "trivfx", "MaxLen": 4, "Starts": "all", "Sample": 0, "workers": 8},
         ]
     for f in fams:
         replay.run_family(rep, f, "tree", modes)
